@@ -5,7 +5,7 @@ THEOREMS = ["release_only_when_licensed", "never_kept", "immutable_kept_sts", "d
             "resync_pass_exact", "resync_pass_no_orphans", "prefix_reserve_survives_resync",
             "keyuid_invariant", "keyuid_preserved", "resync_keeps_alive_pod", "event_keeps_alive_pod", "queued_event_keeps_alive_pod",
             "alive_pod_keeps_ip", "immutable_dp_over_replicas_releases", "immutable_dp_within_replicas_reserves",
-            "immutable_dp_nonvacuous"]
+            "immutable_dp_nonvacuous", "two_events_release_the_surplus", "two_events_nonvacuous"]
 REFUTED = ["dp_reserve_leak_refuted", "alive_pod_keeps_ip_refuted_old"]
 KNOWN_FINDINGS = [
     {"id": "F18", "status": "fixed", "commit": "58ad117", "tag": "c03-mixed-uid-key",
